@@ -6,6 +6,7 @@ TY = "./pkg/pdfcpu/types"
 FI = "./pkg/filter"
 API = "./pkg/api"
 PD = "./pkg/pdfcpu"
+MO = "./pkg/pdfcpu/model"
 SG = "./pkg/pdfcpu/sign"
 PR = "./pkg/pdfcpu/primitives"
 
@@ -73,6 +74,12 @@ PROPS = {
             dict(name="VerifPredictorDriver", bounds=dict(quick=dict(C=2, COLORS=2, R=2), thorough=dict(C=3, COLORS=3, R=3)), opts=dict(unwind=300)),
             dict(name="VerifPredictorLZW"),
         ],
+    ),
+    "C20": dict(
+        pkg=MO,
+        explanation="model.EqualObjects (with equalDicts/equalArrays and one-level dereferencing through an XRefTable) executed symbolically on pairs of object trees of depth <= 2 (leaf, array or dict of <= W entries; leaf kinds null, Boolean, Integer, Name, StringLiteral, HexLiteral, indirect reference to a defined or undefined object) with symbolic leaf values: whenever it answers 'equal' an independent structural comparison must agree",
+        outside="that the whole optimisation pass preserves what the document shows; stream dictionaries and font dictionaries (font-name prefix rule); trees deeper than 2; cyclic reference graphs",
+        harnesses=[dict(name="VerifEqualObjectsSound", bounds=dict(quick=dict(W=1), thorough=dict(W=2)), opts=dict(unwind=100))],
     ),
     "C25": dict(
         pkg=PD,
